@@ -451,6 +451,10 @@ func checkInferArgs(pkg *Package, fn *internal.Elem, sig *types.Signature, args 
 			for i := 0; i < nreq-1 && !inferable; i++ {
 				inferable = typeparams.IsParameterized([]*types.TypeParam{t}, params.At(i).Type())
 			}
+			// or through the core type of another type parameter's constraint (S ~[]E)
+			for i, tps := 0, sig.TypeParams(); i < tps.Len() && !inferable; i++ {
+				inferable = constraintMentions(tps.At(i).Constraint(), t)
+			}
 			if !inferable {
 				return nil, nil, fmt.Errorf("cannot infer %v (%v)", elem, pkg.cb.fset.Position(t.Obj().Pos()))
 			}
@@ -473,6 +477,30 @@ func checkInferArgs(pkg *Package, fn *internal.Elem, sig *types.Signature, args 
 			"%s arguments in call to %s\n\thave (%v)\n\twant (%v)", fewOrMany, caller, getTypes(args), getParamsTypes(sig.Params(), false))
 	}
 	return args, params, nil
+}
+
+// constraintMentions reports whether a term of the constraint (e.g. ~[]E) mentions t.
+func constraintMentions(constraint types.Type, t *types.TypeParam) bool {
+	iface, ok := constraint.Underlying().(*types.Interface)
+	if !ok {
+		return false
+	}
+	tparams := []*types.TypeParam{t}
+	for i := 0; i < iface.NumEmbeddeds(); i++ {
+		switch e := iface.EmbeddedType(i).(type) {
+		case *types.Union:
+			for j := 0; j < e.Len(); j++ {
+				if typeparams.IsParameterized(tparams, e.Term(j).Type()) {
+					return true
+				}
+			}
+		default:
+			if _, isIface := e.Underlying().(*types.Interface); !isIface && typeparams.IsParameterized(tparams, e) {
+				return true
+			}
+		}
+	}
+	return false
 }
 
 // ----------------------------------------------------------------------------
